@@ -139,6 +139,7 @@ type SolverResult struct {
 	Ms     int64
 	Output string // verbatim output of the deciding (or last) solver
 	Model  map[string]string
+	FailedCase int // index of the first undischarged case of a case-split run (-1: none)
 }
 
 type solverSpec struct {
@@ -293,6 +294,90 @@ func RunSMT(query string, timeoutS int, seed int, wantModel bool, only []string)
 		last.Status = "unknown"
 	}
 	return last
+}
+
+// RunSMTMulti runs an incremental script with n check-sat commands on z3-new and z3
+// (cvc5 with --incremental) and reports unsat iff some solver answered unsat to all of them.
+func RunSMTMulti(script string, n int, timeoutS int, seed int) SolverResult {
+	fileCounter.Lock()
+	fileCounter.n++
+	k := fileCounter.n
+	fileCounter.Unlock()
+	file := filepath.Join(Scratch(), fmt.Sprintf("m%d.smt2", k))
+	if err := os.WriteFile(file, []byte(script), 0o644); err != nil {
+		return SolverResult{Status: "error", Output: err.Error(), FailedCase: -1}
+	}
+	defer os.Remove(file)
+	ctx, cancel := context.WithCancel(context.Background())
+	defer cancel()
+	type cand struct {
+		name string
+		argv []string
+	}
+	cands := []cand{
+		{"z3-new", []string{"z3-new", fmt.Sprintf("-T:%d", timeoutS), fmt.Sprintf("smt.random_seed=%d", seed), file}},
+		{"z3", []string{"z3", fmt.Sprintf("-T:%d", timeoutS), fmt.Sprintf("smt.random_seed=%d", seed), file}},
+		{"cvc5", []string{"cvc5", "--incremental", fmt.Sprintf("--tlimit=%d", timeoutS*1000), fmt.Sprintf("--seed=%d", seed), file}},
+	}
+	ch := make(chan SolverResult, len(cands))
+	for _, cd := range cands {
+		go func(cd cand) {
+			SolverSem <- struct{}{}
+			defer func() { <-SolverSem }()
+			if ctx.Err() != nil {
+				ch <- SolverResult{Status: "cancelled", Solver: cd.name, FailedCase: -1}
+				return
+			}
+			t0 := time.Now()
+			cctx, ccancel := context.WithTimeout(ctx, time.Duration(timeoutS+2)*time.Second)
+			defer ccancel()
+			cmd := exec.CommandContext(cctx, cd.argv[0], cd.argv[1:]...)
+			var out bytes.Buffer
+			cmd.Stdout = &out
+			cmd.Stderr = &out
+			cmd.Run()
+			ms := time.Since(t0).Milliseconds()
+			lines := strings.Split(strings.TrimSpace(out.String()), "\n")
+			nu := 0
+			failed := -1
+			st := "unsat"
+			for i := 0; i < n; i++ {
+				if i < len(lines) && strings.TrimSpace(lines[i]) == "unsat" {
+					nu++
+					continue
+				}
+				failed = i
+				st = "unknown"
+				if i < len(lines) && strings.TrimSpace(lines[i]) == "sat" {
+					st = "sat"
+				}
+				break
+			}
+			ch <- SolverResult{Status: st, Solver: cd.name, Ms: ms, Output: truncateStr(out.String(), 2000), FailedCase: failed}
+		}(cd)
+	}
+	var last SolverResult
+	for range cands {
+		r := <-ch
+		if r.Status == "unsat" {
+			cancel()
+			return r
+		}
+		if r.Status != "cancelled" && (last.Status == "" || r.Status == "sat") {
+			last = r
+		}
+	}
+	if last.Status == "" {
+		last = SolverResult{Status: "unknown", FailedCase: -1}
+	}
+	return last
+}
+
+func truncateStr(s string, n int) string {
+	if len(s) > n {
+		return s[:n]
+	}
+	return s
 }
 
 var defineFunRe = regexp.MustCompile(`\(define-fun\s+(\S+)\s+\(\)\s+`)
